@@ -37,7 +37,15 @@ func (a *Allocator) VerifDump() string {
 		ks = append(ks, k)
 	}
 	dumpMapKey("sharingKeyForIP", ks, func(k string) string {
-		return fmt.Sprintf("%q/%q", a.sharingKeyForIP[k].sharing, a.sharingKeyForIP[k].backend)
+		// the entry is a pointer into an allocation record: which record it aliases is part of the state
+		// (a record that is later mutated in place changes what the gate sees only if it is the aliased one)
+		alias := "detached"
+		for _, s := range svcs {
+			if &a.allocated[s].key == a.sharingKeyForIP[k] {
+				alias = s
+			}
+		}
+		return fmt.Sprintf("%q/%q ->%s", a.sharingKeyForIP[k].sharing, a.sharingKeyForIP[k].backend, alias)
 	})
 	ks = nil
 	for k := range a.portsInUse {
@@ -97,6 +105,21 @@ func (a *Allocator) VerifDump() string {
 		return fmt.Sprintf("cidr=%v buggy=%v auto=%v alloc=%v", p.CIDR, p.AvoidBuggyIPs, p.AutoAssign, p.ServiceAllocations)
 	})
 	return b.String()
+}
+
+// VerifContent is VerifDump without the aliasing annotation of sharingKeyForIP: two allocators with equal
+// content answer the next request alike as long as records are immutable; comparisons between a live and a
+// rebuilt allocator use this form (which record a pointer happens to alias is not observable by itself).
+func (a *Allocator) VerifContent() string {
+	lines := strings.Split(a.VerifDump(), "\n")
+	for i, l := range lines {
+		if strings.HasPrefix(l, "sharingKeyForIP ") {
+			if j := strings.LastIndex(l, " ->"); j >= 0 {
+				lines[i] = l[:j]
+			}
+		}
+	}
+	return strings.Join(lines, "\n")
 }
 
 // VerifHolders returns address -> sorted service keys, from the allocations.
